@@ -11,7 +11,8 @@ callables, printing); the functions called are the model's.
   sel  <start> <docs> <steps> <lower>       -> identities (paths "i.j.k") of the last step ("err" = IndexError)
       start = "doc i" | "node path" | "res" | "fn"
       docs  = "k tree…"            tree = "T name nattrs attr… nchildren tree…"   (content only: no identity is sent)
-      steps = "k step…"            step = "S deep roots nq query…" | "G query" | "W entry-query" | "R" | "P" | "U query"
+      steps = "k step…"            step = "S deep roots nq query…" | "G query" | "W entry-query" | "WF k" | "R" | "P" | "U query"
+                                   ("WF k" = where(natural entry callable number k))
   prog <docs> <k statement…> <lower>        -> see `runProg`
 -/
 
@@ -118,6 +119,7 @@ inductive Step where
   | sel (deep roots : Bool) (qs : List Query)
   | get (q : Query)
   | whr (q : EQ)
+  | whrFn (k : Nat)       -- `where(f)` for the natural entry callable number k
   | roots                 -- the `Result.roots` property
   | parents               -- the `Result.parents` property
   | upto (q : Query)      -- `Result.upto(q)`
@@ -129,6 +131,7 @@ def pStep (σ : Built) : P Step
     pure (.sel (d != 0) (ro != 0) qs, r)
   | "G" :: r => do let (q, r) ← pQuery σ r; pure (.get q, r)
   | "W" :: r => do let (q, r) ← pEQ σ r; pure (.whr q, r)
+  | "WF" :: r => do let (k, r) ← pNat r; pure (.whrFn k, r)
   | "R" :: r => some (.roots, r)
   | "P" :: r => some (.parents, r)
   | "U" :: r => do let (q, r) ← pQuery σ r; pure (.upto q, r)
@@ -146,8 +149,10 @@ def pCounted {α : Type} (p : P α) : P (List α) := fun ts => do
   pMany p k ts
 
 /-- the concrete family of opaque callables the harness defines in Python with the same table:
-`(k + code v) % 3` = 0 → False, 1 → True, 2 → raise; code None = 0, int = |i|, str = len -/
+`(k + code v) % 3` = 0 → False, 1 → True, 2 → raise; code None = 0, int = |i|, str = len.
+Numbers from 100 on are the model's natural predicates (`natCall`, IV/Model/Query.lean). -/
 def opqCall : Nat → Val → Out := fun k v =>
+  if k ≥ 100 then natCall (k - 100) v else
   let c : Nat := match v with | .none => 0 | .int i => i.natAbs | .str s => s.length
   match (k + c) % 3 with
   | 0 => .ret false
@@ -189,9 +194,12 @@ def stepNodes (ρ : Env) (s : St) (st : Step) : Option (List Node) :=
   | .get q, .result ch => some (resultGetitem ρ ch q)
   | .whr q, .entry e => some (entryWhere ρ e q)
   | .whr q, .result ch => some (resultWhere ρ ch q)
+  | .whrFn k, .entry e => some (entryWhereFn (natCallE k) e)
+  | .whrFn k, .result ch => some (resultWhereFn (natCallE k) ch)
   | .roots, .result ch => some (rootsOf ch)
   | .parents, .result ch => some (parentsOf ch)
   | .upto q, .result ch => some (uptoOf (q.eval ρ) ch)
+  | .upto q, .entry e => some ((e.upto (q.eval ρ)).toList)        -- `Entry.upto(q)`: one ancestor or None
   | _, _ => none
 
 def stepFinal (ρ : Env) (s : St) (st : Step) : Option (Option (List (List Nat))) :=
